@@ -234,6 +234,24 @@ impl PayloadDelta {
     pub uninterp spec fn is_diff(&self, a: Content, b: Content) -> bool;
     pub uninterp spec fn is_empty_spec(&self) -> bool;
 
+    // accessors (delta.rs); is_empty/serial read the abstract state, the counts are not constrained
+    #[verifier::external_body]
+    pub fn is_empty(&self) -> (r: bool) ensures r == self.is_empty_spec() { unimplemented!() }
+    #[verifier::external_body]
+    pub fn serial(&self) -> (r: Serial) ensures r == self.serial_spec() { unimplemented!() }
+    #[verifier::external_body] pub fn announce_len(&self) -> usize { unimplemented!() }
+    #[verifier::external_body] pub fn withdraw_len(&self) -> usize { unimplemented!() }
+    // C11/C12 (unit delta), as assumed in units/history/env.rs, over data-set contents
+    #[verifier::external_body]
+    pub fn empty(serial: Serial) -> (r: PayloadDelta)
+        ensures r.serial_spec() == serial, r.is_empty_spec(), forall|x: Content| r.is_diff(x, x),
+    { unimplemented!() }
+    #[verifier::external_body]
+    pub fn merge(&self, new: &PayloadDelta) -> (r: PayloadDelta)
+        ensures r.serial_spec() == new.serial_spec(),
+                forall|x: Content, y: Content, z: Content| self.is_diff(x, y) && new.is_diff(y, z) ==> r.is_diff(x, z),
+    { unimplemented!() }
+
     // C11 (unit delta), lifted to PayloadDelta: None exactly when the data sets are equal; otherwise the
     // exact change from `old` to `new`, tagged serial + 1
     #[verifier::external_body]
